@@ -30,6 +30,10 @@ DirtyOK(s)   == s.dirty \subseteq 0..(s.L - 1)
 ColoursOK(s, cols) ==
   /\ \A r \in 1..s.L, c \in 1..s.C : ColourOK(s.g[r][c].fg, cols) /\ ColourOK(s.g[r][c].bg, cols)
   /\ ColourOK(s.attr.fg, cols) /\ ColourOK(s.attr.bg, cols)
+\* the same, restricted to the given rows (1-based) - enough after an event that changed only those
+ColoursOKRows(s, cols, rows) ==
+  /\ \A r \in rows, c \in 1..s.C : ColourOK(s.g[r][c].fg, cols) /\ ColourOK(s.g[r][c].bg, cols)
+  /\ ColourOK(s.attr.fg, cols) /\ ColourOK(s.attr.bg, cols)
 \* what the specification's operators need in order to be defined on s
 WellFormedCore(s) == Shape(s) /\ CursorOK(s) /\ MarginsOK(s)
 WellFormed(s, cols) == WellFormedCore(s) /\ DirtyOK(s) /\ ColoursOK(s, cols)
@@ -38,6 +42,10 @@ WellFormedBad(s, cols) ==
   (IF Shape(s) THEN {} ELSE {"shape"}) \cup (IF CursorOK(s) THEN {} ELSE {"cursor"}) \cup
   (IF MarginsOK(s) THEN {} ELSE {"margins"}) \cup (IF DirtyOK(s) THEN {} ELSE {"dirty"}) \cup
   (IF Shape(s) /\ ~ColoursOK(s, cols) THEN {"colour"} ELSE {})
+\* the clauses that do not need a pass over the grid
+WellFormedBadCheap(s) ==
+  (IF Shape(s) THEN {} ELSE {"shape"}) \cup (IF CursorOK(s) THEN {} ELSE {"cursor"}) \cup
+  (IF MarginsOK(s) THEN {} ELSE {"margins"}) \cup (IF DirtyOK(s) THEN {} ELSE {"dirty"})
 
 -----------------------------------------------------------------------------
 (* scopes                                                                    *)
